@@ -10,6 +10,8 @@
                                 (SharedModel.sstep, run on the same schedule: a,w = AStart; x,t = the receives of replica 0
                                 in order, the broadcast, the receives of the others, the barrier) accepted every action so
                                 far and holds the same count grids for this walker>
+            p,t,oc              a round at step t that a dead/absent replica interrupts (SharedModel.exchange_partial): oc = one
+                                letter per walker, C = completed the round, A = is as before the call
             d,t                 print which walkers consider step t an exchange step: D t b0b1..
        The count grid runs the generic model over OCaml ints, the gradient grid over floats (the same
        extracted code, two carriers).  After every event each grid is tabulated (a closure that looks up an
@@ -68,6 +70,14 @@ let abf (w : string array) =
       act ABcast;
       for p = n - 1 downto 1 do act (AGet (nat_of_int p)) done;
       act (AFinish t)
+    | [ "p"; t; oc ] ->
+      (* a round at step t that does not complete: walker i Committed ('C') or Aborted ('A', also for a dead one);
+         the small-step machine has no failing calls: it stops being compared (ss=0 from here on) *)
+      let t = z_of_int (int_of_string t) in
+      let ocl = List.init (String.length oc) (fun i -> if oc.[i] = 'C' then Committed else Aborted) in
+      cw := List.map (tabw nc 0) (exchange_partial igrp t ocl !cw);
+      sw := List.map (tabw ns 0.0) (exchange_partial fgrp t ocl !sw);
+      ss := None
     | [ "a"; ws ] -> act (AStart (nat_of_int (int_of_string ws)))
     | [ "r"; ws; t ] ->
       let wi = nat_of_int (int_of_string ws) in
